@@ -21,6 +21,7 @@ inductive Call (V : Type) where
   | update (p : Nat) (v : V)      -- UpdateParameter(id, json v)
   | paramData (p : Nat)           -- ParameterData(id)
   | artifact (i : Nat)            -- Artifact(name of producer node i)
+  | updateRejected (p : Nat)      -- UpdateParameter(id, msg) with a message that does not decode
   deriving DecidableEq, Repr
 
 inductive Resp (V : Type) where
@@ -42,6 +43,9 @@ def seqStep (F : Nat) (g : Graph V) : Call V → Graph V × Resp V
     | .param x _ => (g, .val x)
     | .struct _ => (g, .err)
   | .artifact i => ((Eval F g i).1, .val (val (Eval F g i).1 i))
+  -- `ApplyMessage` returns the decode error before writing anything; `UpdateParameter` returns it
+  -- (it still bumps the instance's model version counter, which is not part of this state)
+  | .updateRejected _ => (g, .err)
 
 def replay (F : Nat) (g : Graph V) : List (Call V) → Graph V × List (Resp V)
   | [] => (g, [])
